@@ -57,9 +57,9 @@ def run(rep, ctx):
 def _appends(fn_node, acc):
     out = []
     for n in own_nodes(fn_node):
-        if isinstance(n, ast.AugAssign) and isinstance(n.target, ast.Name) and n.target.id == acc:
+        if isinstance(n, ast.AugAssign) and isinstance(n.target, ast.Name) and n.target.id in acc:
             out.append((n, n.value))
-        elif isinstance(n, ast.Assign) and any(isinstance(t, ast.Name) and t.id == acc for t in n.targets) and isinstance(n.value, ast.BinOp):
+        elif isinstance(n, ast.Assign) and any(isinstance(t, ast.Name) and t.id in acc for t in n.targets) and isinstance(n.value, ast.BinOp):
             out.append((n, n.value.right))
     return out
 
@@ -75,7 +75,7 @@ def r1_typestate(rep, ctx):
         by_node = {}
         for kind, node, st in b.events:
             by_node.setdefault(id(node), []).append((kind, st))
-        for node, _ in _appends(fn.node, b.acc):
+        for node, _ in sorted(_appends(fn.node, b.family), key=lambda x: (x[0].lineno, x[0].col_offset)):
             total += 1
             key = "%s:%s" % (name, norm(ast.unparse(node)))
             evs = by_node.get(id(node), [])
